@@ -25,6 +25,12 @@ import (
 // (a 2 is a double count) and over all delta collections every digit must add up to exactly 1.
 var c02Vals = []int64{1, 3, 9, 27, 81, 243}
 
+type c02Done struct {
+	v    int64
+	a    string
+	step int
+}
+
 type c02Point struct {
 	attr  string
 	val   float64
@@ -67,8 +73,10 @@ type c02Exp struct {
 	after bool
 }
 
-func (e *c02Exp) Temporality(InstrumentKind) metricdata.Temporality { return metricdata.DeltaTemporality }
-func (e *c02Exp) Aggregation(k InstrumentKind) Aggregation          { return DefaultAggregationSelector(k) }
+func (e *c02Exp) Temporality(InstrumentKind) metricdata.Temporality {
+	return metricdata.DeltaTemporality
+}
+func (e *c02Exp) Aggregation(k InstrumentKind) Aggregation { return DefaultAggregationSelector(k) }
 func (e *c02Exp) Export(_ context.Context, rm *metricdata.ResourceMetrics) error {
 	if e.sd > 0 {
 		e.x.Fail("C02|export-after-exporter-shutdown", "periodic reader exported after shutting its exporter down")
@@ -82,11 +90,12 @@ func (e *c02Exp) ForceFlush(context.Context) error { return nil }
 func (e *c02Exp) Shutdown(context.Context) error   { e.sd++; return nil }
 
 type c02Scn struct {
-	name     string
-	kind     string     // "int", "float", "updown"
-	rec      [][]string // recorder threads: ops "A" / "B" (attribute set) — values assigned in order
-	collects [][]string // collector threads: ops "D" collect delta, "C" collect cumulative, "F" periodic ForceFlush
-	periodic bool
+	name      string
+	kind      string     // "int", "float", "updown"
+	rec       [][]string // recorder threads: ops "A" / "B" (attribute set) — values assigned in order
+	collects  [][]string // collector threads: ops "D" collect delta, "C" collect cumulative, "F" periodic ForceFlush
+	periodic  bool
+	twoScopes bool // attribute set B is recorded on the same-named instrument of a second meter (scope)
 }
 
 func c02Body(sc c02Scn, res *string) func(x *sched.Exec) {
@@ -109,6 +118,16 @@ func c02Body(sc c02Scn, res *string) func(x *sched.Exec) {
 		case "int":
 			c, _ := meter.Int64Counter("c")
 			add = func(v int64, a string) { c.Add(ctx, v, api.WithAttributes(attribute.String("k", a))) }
+			if sc.twoScopes {
+				c2, _ := mp.Meter("m2").Int64Counter("c")
+				add = func(v int64, a string) {
+					if a == "B" {
+						c2.Add(ctx, v, api.WithAttributes(attribute.String("k", a)))
+					} else {
+						c.Add(ctx, v, api.WithAttributes(attribute.String("k", a)))
+					}
+				}
+			}
 		case "float":
 			c, _ := meter.Float64Counter("c")
 			add = func(v int64, a string) { c.Add(ctx, float64(v), api.WithAttributes(attribute.String("k", a))) }
@@ -135,6 +154,9 @@ func c02Body(sc c02Scn, res *string) func(x *sched.Exec) {
 		}
 		var deltas, cums [][]c02Point
 		failed := false
+		earlyShutdown := false
+		shutdownCalledAt := -1
+		var addReturned []c02Done
 		collect := func(rd *ManualReader, into *[][]c02Point, wantTemp metricdata.Temporality) {
 			var rm metricdata.ResourceMetrics
 			if err := rd.Collect(ctx, &rm); err != nil {
@@ -159,6 +181,7 @@ func c02Body(sc c02Scn, res *string) func(x *sched.Exec) {
 				defer wg.Done()
 				for _, op := range l {
 					add(op.v, op.a)
+					addReturned = append(addReturned, c02Done{op.v, op.a, x.Step()})
 				}
 			})
 		}
@@ -175,6 +198,12 @@ func c02Body(sc c02Scn, res *string) func(x *sched.Exec) {
 						if err := pr.ForceFlush(ctx); err != nil {
 							failed = true
 						}
+					case "S": // Shutdown racing the interval export
+						shutdownCalledAt = x.Step()
+						if err := pr.Shutdown(ctx); err != nil {
+							failed = true
+						}
+						earlyShutdown = true
 					}
 				}
 			})
@@ -184,7 +213,7 @@ func c02Body(sc c02Scn, res *string) func(x *sched.Exec) {
 		collect(delta, &deltas, metricdata.DeltaTemporality)
 		collect(cum, &cums, metricdata.CumulativeTemporality)
 		if pr != nil {
-			if err := pr.Shutdown(ctx); err != nil {
+			if err := pr.Shutdown(ctx); err != nil && !earlyShutdown {
 				failed = true
 			}
 			if exp.sd != 1 {
@@ -196,7 +225,7 @@ func c02Body(sc c02Scn, res *string) func(x *sched.Exec) {
 			*res = "collection-error"
 			return
 		}
-		check := func(reader string, colls [][]c02Point) {
+		check := func(reader string, colls [][]c02Point, must map[string]int64) {
 			// every digit 0/1 per collection, exactly 1 over all collections
 			sum := map[string]int64{}
 			for i, pts := range colls {
@@ -222,9 +251,24 @@ func c02Body(sc c02Scn, res *string) func(x *sched.Exec) {
 					}
 				}
 			}
-			for a, w := range want {
-				if sum[a] != w {
-					x.Fail("C02|delta-sum-mismatch|"+reader, "%s: delta values for %s add up to %d over %d collections, recorded total is %d (collections %v)", reader, a, sum[a]*sign, len(colls), w*sign, colls)
+			for _, a := range []string{"A", "B"} {
+				w, ok := want[a]
+				if !ok {
+					continue
+				}
+				// digits (powers of three) reported must contain every required measurement and
+				// nothing but recorded ones; without an early reader shutdown required == recorded
+				miss, extra := false, false
+				for g, m, y := sum[a], must[a], w; g > 0 || m > 0 || y > 0; g, m, y = g/3, m/3, y/3 {
+					if m%3 == 1 && g%3 != 1 {
+						miss = true
+					}
+					if g%3 == 1 && y%3 != 1 {
+						extra = true
+					}
+				}
+				if miss || extra {
+					x.Fail("C02|delta-sum-mismatch|"+reader, "%s: delta values for %s add up to %d over %d collections, recorded total is %d, of which %d was recorded before the reader was shut down (collections %v)", reader, a, sum[a]*sign, len(colls), w*sign, must[a]*sign, colls)
 				}
 			}
 			for a := range sum {
@@ -233,9 +277,20 @@ func c02Body(sc c02Scn, res *string) func(x *sched.Exec) {
 				}
 			}
 		}
-		check("delta-manual", deltas)
+		check("delta-manual", deltas, want)
 		if pr != nil {
-			check("delta-periodic", exp.colls)
+			must := want
+			if earlyShutdown {
+				// only measurements whose Add had returned before the reader's Shutdown was called
+				// are guaranteed to be exported by it
+				must = map[string]int64{}
+				for _, d := range addReturned {
+					if d.step < shutdownCalledAt {
+						must[d.a] += d.v
+					}
+				}
+			}
+			check("delta-periodic", exp.colls, must)
 		}
 		// cumulative: last value equals the total, sequence monotone for monotonic inputs
 		last := map[string]int64{}
@@ -248,7 +303,11 @@ func c02Body(sc c02Scn, res *string) func(x *sched.Exec) {
 				last[p.attr] = v
 			}
 		}
-		for a, w := range want {
+		for _, a := range []string{"A", "B"} {
+			w, ok := want[a]
+			if !ok {
+				continue
+			}
 			if last[a] != w {
 				x.Fail("C02|cumulative-total-mismatch", "latest cumulative value for %s is %d, recorded total is %d (collections %v)", a, last[a]*sign, w*sign, cums)
 			}
@@ -266,18 +325,21 @@ func (j c02Job) name() string { return fmt.Sprintf("%s/P%dE%d", j.sc.name, j.p, 
 
 func c02Jobs(thorough bool) []c02Job {
 	A, B := "A", "B"
-	m1 := c02Scn{"M1-int", "int", [][]string{{A, B}, {A, A}}, [][]string{{"D", "D"}}, false}
-	m2 := c02Scn{"M2-float", "float", [][]string{{A, B}, {A}}, [][]string{{"D"}, {"C"}}, false}
-	m3 := c02Scn{"M3-updown", "updown", [][]string{{A, A}, {A}}, [][]string{{"D", "C"}}, false}
-	m4 := c02Scn{"M4-int-2collectors", "int", [][]string{{A, A}}, [][]string{{"D"}, {"D"}}, false}
-	p1 := c02Scn{"P1-periodic", "int", [][]string{{A, B}}, [][]string{{"F"}}, true}
-	p2 := c02Scn{"P2-periodic", "int", [][]string{{A}, {A}}, [][]string{{"F"}, {"D"}}, true}
-	m5 := c02Scn{"M5-int-3recorders", "int", [][]string{{A, B}, {A, A}, {B}}, [][]string{{"D", "D"}, {"C"}}, false}
-	p3 := c02Scn{"P3-periodic-float", "float", [][]string{{A, A}, {B}}, [][]string{{"F", "F"}}, true}
+	m1 := c02Scn{"M1-int", "int", [][]string{{A, B}, {A, A}}, [][]string{{"D", "D"}}, false, false}
+	m2 := c02Scn{"M2-float", "float", [][]string{{A, B}, {A}}, [][]string{{"D"}, {"C"}}, false, false}
+	m3 := c02Scn{"M3-updown", "updown", [][]string{{A, A}, {A}}, [][]string{{"D", "C"}}, false, false}
+	m4 := c02Scn{"M4-int-2collectors", "int", [][]string{{A, A}}, [][]string{{"D"}, {"D"}}, false, false}
+	p1 := c02Scn{"P1-periodic", "int", [][]string{{A, B}}, [][]string{{"F"}}, true, false}
+	p2 := c02Scn{"P2-periodic", "int", [][]string{{A}, {A}}, [][]string{{"F"}, {"D"}}, true, false}
+	m5 := c02Scn{"M5-int-3recorders", "int", [][]string{{A, B}, {A, A}, {B}}, [][]string{{"D", "D"}, {"C"}}, false, false}
+	p3 := c02Scn{"P3-periodic-float", "float", [][]string{{A, A}, {B}}, [][]string{{"F", "F"}}, true, false}
+	// two scopes, interval export in flight while Shutdown cancels the run loop's context
+	p4 := c02Scn{"P4-periodic-2scopes-shutdown", "int", [][]string{{A, B}}, [][]string{{"S"}}, true, true}
+	m6 := c02Scn{"M6-int-2scopes", "int", [][]string{{A, B}, {B, A}}, [][]string{{"D", "D"}}, false, true}
 	if !thorough {
-		return []c02Job{{m1, 3, 0}, {m2, 3, 0}, {m3, 3, 0}, {m4, 3, 0}, {p1, 1, 1}, {p2, 1, 0}, {p2, 0, 1}}
+		return []c02Job{{m1, 3, 0}, {m2, 3, 0}, {m3, 3, 0}, {m4, 3, 0}, {m6, 2, 0}, {p1, 1, 1}, {p2, 1, 0}, {p2, 0, 1}, {p4, 1, 1}}
 	}
-	return []c02Job{{m1, 4, 0}, {m2, 4, 0}, {m3, 4, 0}, {m4, 4, 0}, {m5, 2, 0}, {m5, 3, 0}, {p1, 2, 2}, {p2, 1, 1}, {p2, 2, 0}, {p3, 1, 1}, {p3, 2, 0}}
+	return []c02Job{{m1, 4, 0}, {m2, 4, 0}, {m3, 4, 0}, {m4, 4, 0}, {m5, 2, 0}, {m5, 3, 0}, {p1, 2, 2}, {p2, 1, 1}, {p2, 2, 0}, {p3, 1, 1}, {p3, 2, 0}, {p4, 2, 1}, {p4, 1, 2}, {m6, 3, 0}}
 }
 
 func TestVerifC02(t *testing.T) {
